@@ -248,6 +248,8 @@ func init() {
 		"verifSymbolic":     func(m *machine, c *frame, fn *ssa.Function, a []value) value { return true },
 		"verifMapOrder":     verifMapOrder,
 		"verifKnown":        verifKnown,
+		"verifKey":          verifKeyStub,
+		"verifSignature":    verifSignatureStub,
 	}
 }
 
@@ -461,6 +463,7 @@ func verifReach(m *machine, c *frame, fn *ssa.Function, a []value) value {
 	case "sat":
 		m.p.reach[id] = mdl
 		m.p.reachND[id] = m.snapshotNondets()
+		m.p.reachObs[id] = m.renderObserves(mdl)
 	case "unsat":
 		m.p.incon = append(m.p.incon, fmt.Sprintf("reach point %s has an unsatisfiable path condition", id))
 	default:
@@ -495,8 +498,58 @@ func verifCrashFree(m *machine, c *frame, fn *ssa.Function, a []value) (res valu
 	return false
 }
 
+// verifObserve(id, v): records a scalar for the engine/native differential
+// comparison made on every replayed reach witness.
 func verifObserve(m *machine, c *frame, fn *ssa.Function, a []value) value {
+	id := nameArg(a[0])
+	itf, _ := a[1].(iface)
+	m.p.obsIDs = append(m.p.obsIDs, id)
+	m.p.obsVals = append(m.p.obsVals, itf)
 	return nil
+}
+
+func (m *machine) renderObserves(model map[string]uint64) []string {
+	var out []string
+	memo := map[int]*Term{}
+	for i, id := range m.p.obsIDs {
+		itf := m.p.obsVals[i]
+		v := itf.v
+		var s string
+		switch x := v.(type) {
+		case *Term:
+			c := m.tt.eval(x, model, memo)
+			if !c.isConst() {
+				s = "?"
+				break
+			}
+			switch c.S.K {
+			case kBool:
+				s = fmt.Sprint(c.C == 1)
+			case kBV:
+				_, signed, _ := intKind(itf.t)
+				if signed {
+					s = fmt.Sprint(sext(c.C, c.S.W))
+				} else {
+					s = fmt.Sprint(c.C)
+				}
+			default:
+				s = "?"
+			}
+		case int64:
+			_, signed, ok := intKind(itf.t)
+			if ok && !signed {
+				s = fmt.Sprint(uint64(x))
+			} else {
+				s = fmt.Sprint(x)
+			}
+		case bool, string, float64:
+			s = fmt.Sprint(x)
+		default:
+			s = "?"
+		}
+		out = append(out, id+"="+s)
+	}
+	return out
 }
 
 func verifKnown(m *machine, c *frame, fn *ssa.Function, a []value) value {
